@@ -7,6 +7,7 @@ from ..astutil import replace_node, call_name, parents
 from ..e6_algebra import to_rat, Rat, Poly, NotScalarArithmetic
 from ..e2_tables import TableEval
 from .c08 import ns
+from ..match import expect_assign, expect_call, canon_equal
 
 PROP = "C09"
 EXPLANATION = (
@@ -66,7 +67,7 @@ def run(pm, ctx):
     pu = pm.unit("gemclus.tree._utils")
     fit = ku.func("Kauri.fit")
     ctx.rule("C09-a", "a leaf enters the worklist only if it may be split: enough samples and depth left", floor=3)
-    ctx.rule("C09-b", "the loop stops at max_leaves / empty worklist / non-positive gain", floor=1)
+    ctx.rule("C09-b", "the loop stops at max_leaves / empty worklist / non-positive gain", floor=2)
     ctx.rule("C09-c", "both children of every evaluated split hold at least min_samples_leaf samples", floor=2)
     ctx.rule("C09-d", "thresholds are observed feature values separating two different values", floor=2)
     ctx.rule("C09-e", "the array encoding of the tree stays consistent (2*leaves-1 nodes, ids of the children)", floor=8)
@@ -95,11 +96,19 @@ def run(pm, ctx):
             # [0] if <size test> else []   or   [] then guarded append
             ok = False
             if isinstance(val, ast.IfExp) and norm_src(val.orelse) == "[]" and norm_src(val.body) == "[0]":
-                t = norm_src(val.test)
-                ok = t in ("len(X) >= self.min_samples_split", "n >= self.min_samples_split", "X.shape[0] >= self.min_samples_split",
-                           "self.min_samples_split <= len(X)")
+                for cand in ("len(X) >= self.min_samples_split", "n >= self.min_samples_split", "X.shape[0] >= self.min_samples_split"):
+                    try:
+                        from ..e6_algebra import compare_normal
+                        d1, o1 = compare_normal(val.test)
+                        d2, o2 = compare_normal(ast.parse(cand, mode="eval").body)
+                        ok = ok or (o1 == o2 and d1.equals(d2))
+                    except Exception:
+                        pass
             elif norm_src(val) == "[]":
                 ok = True
+            elif norm_src(val) != "[0]":
+                ctx.unrecognised("C09-a", site, f"initial worklist {norm_src(val)}")
+                continue
             if ok and depth_ok_root:
                 ctx.ok("C09-a", site, "root guarded by min_samples_split; depth 0 < max_depth by the validated domain")
             else:
@@ -108,42 +117,74 @@ def run(pm, ctx):
             continue
         leaf = norm_src(val)
         idx = {"best_split.leaf": "left_indices", "n_leaves": "right_indices"}.get(leaf)
-        tests = [norm_src(p.test) for p in parents(node) if isinstance(p, ast.If) and _in_body(p, node)]
+        tnodes = [p.test for p in parents(node) if isinstance(p, ast.If) and _in_body(p, node)]
+        tests = [norm_src(t) for t in tnodes]
         want_size = f"len({idx}) >= self.min_samples_split" if idx else None
-        want_depth = ["parent_depth + 1 < max_depth", "parent_depth + 1 < max_depth".replace(" ", "")]
-        okk = idx is not None and want_size in tests and any(t in want_depth or t == "max_depth > parent_depth + 1" for t in tests)
+
+        def same_cmp(t, text):
+            try:
+                from ..e6_algebra import compare_normal
+                d1, o1 = compare_normal(t)
+                d2, o2 = compare_normal(ast.parse(text, mode="eval").body)
+                return o1 == o2 and d1.equals(d2)
+            except Exception:
+                return norm_src(t) == text
+        flat = [c for t in tnodes for c in (t.values if isinstance(t, ast.BoolOp) and isinstance(t.op, ast.And) else [t])]
+        okk = idx is not None and any(same_cmp(t, want_size) for t in flat) and any(same_cmp(t, "parent_depth + 1 < max_depth") for t in flat)
+        if idx is None:
+            ctx.unrecognised("C09-a", site, f"inserted leaf {leaf} is neither the split leaf nor the new leaf")
+            continue
         if okk:
             ctx.ok("C09-a", site, f"guards {tests}")
         else:
             ctx.violation("C09-a", ku.relpath, "Kauri.fit", norm_src(st), f"leaf {leaf} enters the worklist without both guards "
                           f"({want_size}; parent_depth + 1 < max_depth); guards found: {tests}", line=st.lineno, site=site)
     # parent_depth is the depth of the node just split; max_depth default
-    src = [norm_src(s) for s in ast.walk(fit) if isinstance(s, ast.stmt)]
-    if ns("parent_depth = self.tree_.get_depth(leaf2node[best_split.leaf])") in src and ns("max_depth = len(X) if self.max_depth is None else self.max_depth") in src:
-        # the depth must be read BEFORE leaf2node[best_split.leaf] is re-pointed to the left child
-        order = [i for i, s in enumerate(src) if s == ns("parent_depth = self.tree_.get_depth(leaf2node[best_split.leaf])")][0]
-        repoint = [i for i, s in enumerate(src) if s.startswith("leaf2node[best_split.leaf] =")]
-        if repoint and order < repoint[0]:
-            ctx.ok("C09-a", "Kauri.fit: parent_depth is the depth of the split node, read before the leaf->node map is re-pointed")
-        else:
-            ctx.violation("C09-a", ku.relpath, "Kauri.fit", "parent_depth", "parent_depth is read after leaf2node was re-pointed to the child", line=fit.lineno)
-    else:
-        ctx.violation("C09-a", ku.relpath, "Kauri.fit", "parent_depth / max_depth", "depth bookkeeping changed: cannot establish what parent_depth and max_depth denote",
-                      line=fit.lineno)
+    pd = expect_assign(ctx, "C09-a", ku, "Kauri.fit", fit, "parent_depth", ["self.tree_.get_depth(leaf2node[best_split.leaf])"], "Kauri.fit: parent_depth",
+                       "parent_depth is not the depth of the node that was just split")
+    expect_assign(ctx, "C09-a", ku, "Kauri.fit", fit, "max_depth", ["len(X) if self.max_depth is None else self.max_depth", "self.max_depth if self.max_depth is not None else len(X)"],
+                  "Kauri.fit: max_depth", "max_depth is not the hyper-parameter (or the number of samples when None)")
+    if pd is not None:
+        repoint = [s_ for s_ in ast.walk(fit) if isinstance(s_, ast.Assign) and norm_src(s_.targets[0]) == "leaf2node[best_split.leaf]"]
+        if repoint and pd.lineno > repoint[0].lineno and pd in fit_cfg_nodes(fit) and repoint[0] in fit_cfg_nodes(fit):
+            ctx.violation("C09-a", ku.relpath, "Kauri.fit", norm_src(pd), "parent_depth is read after leaf2node[best_split.leaf] was re-pointed to the left child: it is the child's depth",
+                          line=pd.lineno, site="Kauri.fit: parent_depth order")
+        elif repoint:
+            ctx.ok("C09-a", "Kauri.fit: parent_depth read before the leaf->node map is re-pointed")
 
     # ------------------------------------------------------------------ b
     w = [n for n in ast.walk(fit) if isinstance(n, ast.While)]
     if len(w) != 1:
         raise AnalysisError("anchor vanished: main loop of Kauri.fit")
-    conj = [norm_src(v) for v in (w[0].test.values if isinstance(w[0].test, ast.BoolOp) and isinstance(w[0].test.op, ast.And) else [w[0].test])]
-    need = [("last_gain > 0",), ("n_leaves < max_leaves",), ("len(leaves_to_explore) != 0", "len(leaves_to_explore) > 0")]
-    miss = [n[0] for n in need if not any(a in conj for a in n)]
-    ml = ns("max_leaves = self.max_leaves if self.max_leaves is not None else n")
-    if not miss and ml in src:
+    conj = [v for v in (w[0].test.values if isinstance(w[0].test, ast.BoolOp) and isinstance(w[0].test.op, ast.And) else [w[0].test])]
+    need = {"gain": ["last_gain > 0"], "leaves": ["n_leaves < max_leaves"], "worklist": ["len(leaves_to_explore) != 0", "len(leaves_to_explore) > 0"]}
+    found = {}
+    for c in conj:
+        for k, alts in need.items():
+            for a in alts:
+                try:
+                    from ..e6_algebra import compare_normal
+                    if compare_normal(c)[1] == compare_normal(ast.parse(a, mode="eval").body)[1] and compare_normal(c)[0].equals(compare_normal(ast.parse(a, mode="eval").body)[0]):
+                        found[k] = c
+                except Exception:
+                    if norm_src(c) == a:
+                        found[k] = c
+    if norm_src(w[0].test) and any(norm_src(c) == "leaves_to_explore" for c in conj):
+        found["worklist"] = True
+    miss = [k for k in need if k not in found]
+    if not miss:
         ctx.ok("C09-b", "Kauri.fit: while gain>0 and n_leaves<max_leaves and worklist non-empty")
     else:
-        ctx.violation("C09-b", ku.relpath, "Kauri.fit", norm_src(w[0].test), f"loop guard misses {miss}" if miss else "max_leaves is not the "
-                      "hyper-parameter (or n)", line=w[0].lineno)
+        # a conjunct about the same variable with another bound is a violation; a differently written loop is unrecognised
+        mentioned = {k: any(v in norm_src(w[0].test) for v in (["last_gain"] if k == "gain" else ["n_leaves"] if k == "leaves" else ["leaves_to_explore"])) for k in miss}
+        if any(mentioned.values()):
+            ctx.violation("C09-b", ku.relpath, "Kauri.fit", norm_src(w[0].test), f"the loop guard does not enforce {[k for k in miss if mentioned[k]]} as gain>0 / n_leaves<max_leaves / non-empty worklist",
+                          line=w[0].lineno)
+        else:
+            ctx.violation("C09-b", ku.relpath, "Kauri.fit", norm_src(w[0].test), f"the greedy loop has no guard on {miss}: it can exceed max_leaves / run on an empty worklist / accept non-positive gains",
+                          line=w[0].lineno)
+    expect_assign(ctx, "C09-b", ku, "Kauri.fit", fit, "max_leaves", ["self.max_leaves if self.max_leaves is not None else n", "n if self.max_leaves is None else self.max_leaves"],
+                  "Kauri.fit: max_leaves", "max_leaves is not the hyper-parameter (or n when None)")
 
     # ------------------------------------------------------------------ c, d in the scan
     fb = pu.func("find_best_split")
@@ -195,109 +236,173 @@ def run(pm, ctx):
         ctx.violation("C09-c", pu.relpath, "find_best_split", norm_src(scan)[:100] if isinstance(scan, ast.For) else "scan", "the threshold scan no longer "
                       "enumerates prefixes of the sorted leaf samples with split_size = l_split + 1", line=cst.lineno)
     # ---- d
-    thr = norm_src(argmap["threshold"])
-    feat = norm_src(argmap["feature_id"])
-    want_thr = f"X[nu[l_split], {feat}]"
-    eqskip = [s for s in skips if isinstance(s.test, ast.Compare) and isinstance(s.test.ops[0], ast.Eq)
-              and {norm_src(s.test.left), norm_src(s.test.comparators[0])} == {want_thr, f"X[nu[l_split + 1], {feat}]"}]
-    if thr == want_thr and eqskip:
-        ctx.ok("C09-d", "find_best_split: threshold = X[nu[l_split], feature], equal neighbours skipped")
+    thr = argmap.get("threshold")
+    feat = argmap.get("feature_id")
+    site = "find_best_split: threshold"
+    if thr is None or feat is None:
+        ctx.unrecognised("C09-d", site, "compute_all_splits is not given threshold / feature_id positionally")
     else:
-        ctx.violation("C09-d", pu.relpath, "find_best_split", norm_src(cst)[:160], f"the threshold passed on is {thr} (expected {want_thr}) or the "
-                      f"equal-neighbour skip is missing", line=cst.lineno)
+        # the threshold must be an element of X, in the scanned feature's column, at the sample currently scanned (nu[l_split])
+        okthr = isinstance(thr, ast.Subscript) and norm_src(thr.value) == "X" and isinstance(thr.slice, ast.Tuple) and len(thr.slice.elts) == 2 \
+            and norm_src(thr.slice.elts[1]) == norm_src(feat)
+        if not okthr:
+            ctx.violation("C09-d", pu.relpath, "find_best_split", norm_src(cst)[:160], f"the threshold handed on is `{norm_src(thr)}`: not an observed value X[sample, {norm_src(feat)}]",
+                          line=cst.lineno, site=site)
+        else:
+            row = norm_src(thr.slice.elts[0])
+            eqskip = [s_ for s_ in skips if isinstance(s_.test, ast.Compare) and isinstance(s_.test.ops[0], ast.Eq) and norm_src(thr) in (norm_src(s_.test.left), norm_src(s_.test.comparators[0]))]
+            nxt = False
+            for s_ in eqskip:
+                other = s_.test.comparators[0] if norm_src(s_.test.left) == norm_src(thr) else s_.test.left
+                if isinstance(other, ast.Subscript) and norm_src(other.value) == "X" and isinstance(other.slice, ast.Tuple) and norm_src(other.slice.elts[1]) == norm_src(feat):
+                    r2 = other.slice.elts[0]
+                    # nu[l_split + 1]: the next sample in sorted order
+                    if isinstance(r2, ast.Subscript) and isinstance(thr.slice.elts[0], ast.Subscript) and norm_src(r2.value) == norm_src(thr.slice.elts[0].value) \
+                            and canon_equal(r2.slice, f"{norm_src(thr.slice.elts[0].slice)} + 1"):
+                        nxt = True
+            if nxt:
+                ctx.ok("C09-d", site, f"{norm_src(thr)}; a split between equal neighbours is skipped")
+            else:
+                ctx.violation("C09-d", pu.relpath, "find_best_split", norm_src(cst)[:160], "candidate thresholds between two equal feature values are not skipped: the `<=` rule cannot "
+                              "separate them, so the evaluated and the applied partitions differ", line=cst.lineno, site=site)
     # nu is leaf_indices permuted by the ascending order of the feature
-    fsrc = [norm_src(s) for s in ast.walk(fb) if isinstance(s, ast.stmt)]
-    need = ["ordering = np.argsort(subset_X)", "nu[a] = leaf_indices[ordering[a]]", "subset_X[a] = X[leaf_indices[a], feature]"]
-    miss = [n for n in need if n not in fsrc]
-    if not miss:
-        ctx.ok("C09-d", "find_best_split: nu = leaf samples sorted by the scanned feature")
-    else:
-        ctx.violation("C09-d", pu.relpath, "find_best_split", miss[0], f"sorting of the leaf samples along the feature changed: {miss}", line=fb.lineno)
+    o = expect_assign(ctx, "C09-d", pu, "find_best_split", fb, "ordering", ["np.argsort(subset_X)"], "find_best_split: ordering", "the scan order is not the ascending order of the feature values")
+    expect_assign(ctx, "C09-d", pu, "find_best_split", fb, "nu[a]", ["leaf_indices[ordering[a]]"], "find_best_split: nu", "nu is not the leaf samples in sorted order")
+    expect_assign(ctx, "C09-d", pu, "find_best_split", fb, "subset_X[a]", ["X[leaf_indices[a], feature]"], "find_best_split: subset_X", "the sorted values are not the leaf's values of the scanned feature")
 
     # ------------------------------------------------------------------ e
     tree = pm.classes.get("Tree")
     if tree is None:
         raise AnalysisError("anchor vanished: class Tree")
     init, add = tree.methods["__init__"], tree.methods["_add_child"]
+    sn = "self"
     lists = {}
     for st in init.body:
         if isinstance(st, ast.Assign) and isinstance(st.value, ast.List) and attr_chain(st.targets[0]):
             lists[attr_chain(st.targets[0])] = st
     grown = {}
-    for st in add.body:
+    for st in ast.walk(add):
         if isinstance(st, ast.AugAssign) and isinstance(st.op, ast.Add) and attr_chain(st.target) in lists:
             grown.setdefault(attr_chain(st.target), []).append(st)
+        if isinstance(st, ast.Expr) and isinstance(st.value, ast.Call) and isinstance(st.value.func, ast.Attribute) and st.value.func.attr in ("extend", "append") \
+                and attr_chain(st.value.func.value) in lists:
+            grown.setdefault(attr_chain(st.value.func.value), []).append(st)
     for name, st in lists.items():
         site = f"Tree: {name}"
         g = grown.get(name, [])
-        if len(st.value.elts) == 1 and len(g) == 1 and isinstance(g[0].value, ast.List) and len(g[0].value.elts) == 2:
+        n_added = 0
+        for x in g:
+            if isinstance(x, ast.AugAssign) and isinstance(x.value, ast.List):
+                n_added += len(x.value.elts)
+            elif isinstance(x, ast.Expr) and x.value.func.attr == "append":
+                n_added += 1
+            elif isinstance(x, ast.Expr) and x.value.args and isinstance(x.value.args[0], (ast.List, ast.Tuple)):
+                n_added += len(x.value.args[0].elts)
+            else:
+                n_added = None
+                break
+        if n_added is None:
+            ctx.unrecognised("C09-e", site, "growth of the list is not a literal extension")
+        elif len(st.value.elts) == 1 and n_added == 2:
             ctx.ok("C09-e", site, "1 entry at creation, +2 per split")
         else:
-            ctx.violation("C09-e", ku.relpath, "Tree._add_child", norm_src(g[0]) if g else name, f"the per-node list {name} does not grow by exactly two "
-                          f"entries per split", line=(g[0].lineno if g else add.lineno), site=site)
-    asrc = [norm_src(s) for s in add.body]
-    isrc = [norm_src(s) for s in init.body]
-    need = ["self.children_left[father] = self.n_nodes", "self.children_right[father] = self.n_nodes + 1", "self.n_nodes += 2"]
-    miss = [n for n in need if n not in asrc]
-    ok_order = not miss and asrc.index("self.n_nodes += 2") > max(asrc.index(need[0]), asrc.index(need[1])) and "self.n_nodes = 1" in isrc
-    tgt = [s for s in asrc if s.startswith("self.target +=")]
-    if ok_order and tgt == ["self.target += [split.left_target, split.right_target]"]:
-        ctx.ok("C09-e", "Tree._add_child: children ids n_nodes / n_nodes+1, targets appended left then right, n_nodes += 2")
+            ctx.violation("C09-e", ku.relpath, "Tree._add_child", norm_src(g[0]) if g else name, f"the per-node list {name} has {len(st.value.elts)} entry at creation and grows by "
+                          f"{n_added} per split; every node list must grow by exactly the two children", line=(g[0].lineno if g else add.lineno), site=site)
+    father = func_params(add)[1]
+    l_ = expect_assign(ctx, "C09-e", ku, "Tree._add_child", add, f"self.children_left[{father}]", ["self.n_nodes"], "Tree._add_child: left child id", "the left child is not node n_nodes")
+    r_ = expect_assign(ctx, "C09-e", ku, "Tree._add_child", add, f"self.children_right[{father}]", ["self.n_nodes + 1"], "Tree._add_child: right child id", "the right child is not node n_nodes + 1")
+    incs = [s_ for s_ in add.body if isinstance(s_, ast.AugAssign) and norm_src(s_.target) == "self.n_nodes"]
+    site = "Tree._add_child: node counter"
+    if not incs:
+        ctx.unrecognised("C09-e", site, "no update of n_nodes")
+    elif len(incs) == 1 and isinstance(incs[0].op, ast.Add) and canon_equal(incs[0].value, "2") and all(x is None or incs[0].lineno > x.lineno for x in (l_, r_)):
+        ctx.ok("C09-e", site, "n_nodes += 2 after the child ids were taken")
     else:
-        ctx.violation("C09-e", ku.relpath, "Tree._add_child", (miss or tgt or ["_add_child"])[0], "child ids / targets / node counter are not maintained "
-                      "consistently", line=add.lineno)
+        ctx.violation("C09-e", ku.relpath, "Tree._add_child", norm_src(incs[0]), "n_nodes is not advanced by 2 after the children ids were assigned", line=incs[0].lineno, site=site)
+    expect_assign(ctx, "C09-e", ku, "Tree.__init__", init, "self.n_nodes", ["1"], "Tree.__init__: one root node", "a new tree does not start with exactly the root")
+    tgt = [s_ for s_ in ast.walk(add) if isinstance(s_, ast.AugAssign) and norm_src(s_.target) == "self.target"]
+    site = "Tree._add_child: targets"
+    if not tgt:
+        ctx.unrecognised("C09-e", site, "no extension of self.target")
+    elif isinstance(tgt[0].value, ast.List) and [norm_src(e) for e in tgt[0].value.elts] == ["split.left_target", "split.right_target"]:
+        ctx.ok("C09-e", site, "left target for node n_nodes, right target for n_nodes+1")
+    else:
+        ctx.violation("C09-e", ku.relpath, "Tree._add_child", norm_src(tgt[0]), "the clusters of the two children are not appended as (left_target, right_target), the order of the child ids",
+                      line=tgt[0].lineno, site=site)
     # leaf2node uses the ids _add_child assigns, under n_nodes = 2*n_leaves - 1
-    l2n = {}
-    for s in ast.walk(fit):
-        if isinstance(s, ast.Assign) and isinstance(s.targets[0], ast.Subscript) and norm_src(s.targets[0].value) == "leaf2node":
-            l2n[norm_src(s.targets[0].slice)] = s.value
-    try:
-        inv = to_rat(ast.parse("2 * n_leaves - 1", mode="eval").body)
-        okl = to_rat(l2n["best_split.leaf"]).equals(inv) and to_rat(l2n["n_leaves"]).equals(inv + Rat(Poly.const(1)))
-    except (KeyError, NotScalarArithmetic):
-        okl = False
-    fsrc2 = [norm_src(s) for s in ast.walk(fit) if isinstance(s, ast.stmt)]
-    okinit = "n_leaves = 1" in fsrc2 and "leaf2node = {0: 0}" in fsrc2 and "n_leaves += 1" in fsrc2
-    calls_add = [s for s in fsrc2 if s.startswith("self.tree_._add_child(")]
-    if okl and okinit and calls_add == ["self.tree_._add_child(leaf2node[best_split.leaf], best_split)"]:
-        ctx.ok("C09-e", "Kauri.fit: leaf2node = 2*n_leaves-1 / 2*n_leaves equals the ids of _add_child (invariant n_nodes = 2*n_leaves-1)")
-    else:
-        ctx.violation("C09-e", ku.relpath, "Kauri.fit", "leaf2node", "the leaf->node map does not follow the node ids assigned by _add_child", line=fit.lineno)
+    expect_assign(ctx, "C09-e", ku, "Kauri.fit", fit, "leaf2node[best_split.leaf]", ["2 * n_leaves - 1"], "Kauri.fit: leaf->node of the left child",
+                  "the split leaf is not re-pointed to node 2*n_leaves-1 (= n_nodes before the split, the left child id)")
+    expect_assign(ctx, "C09-e", ku, "Kauri.fit", fit, "leaf2node[n_leaves]", ["2 * n_leaves"], "Kauri.fit: leaf->node of the right child",
+                  "the new leaf is not mapped to node 2*n_leaves (the right child id)")
+    expect_assign(ctx, "C09-e", ku, "Kauri.fit", fit, "n_leaves", ["1"], "Kauri.fit: one leaf initially", "fit does not start from a single leaf")
+    expect_call(ctx, "C09-e", ku, "Kauri.fit", fit, "self.tree_._add_child", "Kauri.fit: node split", "the split is not recorded at the node of the split leaf",
+                args=["leaf2node[best_split.leaf]", "best_split"])
 
     # ------------------------------------------------------------------ f
     pred = tree.methods["predict"]
-    psrc = [norm_src(s) for s in ast.walk(pred) if isinstance(s, ast.stmt)]
-    need = ["X_left = X[:, self.features[node]] <= self.thresholds[node]", "X_right = ~X_left",
-            "predictions[X_left] = self.predict(X[X_left], self.children_left[node])",
-            "predictions[X_right] = self.predict(X[X_right], self.children_right[node])"]
-    miss = [n for n in need if n not in psrc]
-    leafret = [s for s in psrc if s.startswith("return self.target[node] * np.ones(len(X)")]
-    if not miss and leafret:
-        ctx.ok("C09-f", "Tree.predict: <= threshold goes left, the rest right, leaves return their target")
+    xl = [s_ for s_ in ast.walk(pred) if isinstance(s_, ast.Assign) and isinstance(s_.value, ast.Compare) and "self.thresholds[node]" in norm_src(s_.value)]
+    site = "Tree.predict: comparator"
+    if not xl:
+        ctx.unrecognised("C09-f", site, "no comparison with thresholds[node]")
     else:
-        ctx.violation("C09-f", ku.relpath, "Tree.predict", (miss or ["leaf return"])[0], f"routing differs from the partition built by fit: {miss}", line=pred.lineno)
+        c = xl[0].value
+        left_name = norm_src(xl[0].targets[0])
+        okc = isinstance(c.ops[0], ast.LtE) and norm_src(c.left) == "X[:, self.features[node]]" and norm_src(c.comparators[0]) == "self.thresholds[node]"
+        routes = {norm_src(s_.targets[0]): norm_src(s_.value) for s_ in ast.walk(pred) if isinstance(s_, ast.Assign) and isinstance(s_.targets[0], ast.Subscript)
+                  and norm_src(s_.targets[0].value) == "predictions"}
+        comp = [s_ for s_ in ast.walk(pred) if isinstance(s_, ast.Assign) and norm_src(s_.value) == f"~{left_name}"]
+        right_name = norm_src(comp[0].targets[0]) if comp else None
+        okr = routes.get(f"predictions[{left_name}]") == f"self.predict(X[{left_name}], self.children_left[node])" and right_name is not None \
+            and routes.get(f"predictions[{right_name}]") == f"self.predict(X[{right_name}], self.children_right[node])"
+        if okc and okr:
+            ctx.ok("C09-f", site, "feature <= threshold -> left child, the complement -> right child")
+        else:
+            ctx.violation("C09-f", ku.relpath, "Tree.predict", norm_src(xl[0]), "predict does not send `feature <= threshold` to children_left and the rest to children_right, "
+                          "the partition fit built", line=xl[0].lineno, site=site)
+    leafret = [s_ for s_ in ast.walk(pred) if isinstance(s_, ast.Return) and "self.target[node]" in norm_src(s_)]
+    leaftest = [s_ for s_ in ast.walk(pred) if isinstance(s_, ast.If) and norm_src(s_.test) in ("self.children_left[node] == -1", "-1 == self.children_left[node]")]
+    if leafret and leaftest:
+        ctx.ok("C09-f", "Tree.predict: leaves return their target")
+    else:
+        ctx.unrecognised("C09-f", "Tree.predict: leaves", "no `children_left[node] == -1` leaf returning target[node]")
     kp = ku.func("Kauri.predict")
-    if any(norm_src(s) == "return self.tree_.predict(X)" for s in kp.body):
+    rets = [s_ for s_ in ast.walk(kp) if isinstance(s_, ast.Return)]
+    if rets and canon_equal(rets[0].value, "self.tree_.predict(X)"):
         ctx.ok("C09-f", "Kauri.predict = tree_.predict from the root")
+    elif rets and "tree_.predict" in norm_src(rets[0]):
+        ctx.violation("C09-f", ku.relpath, "Kauri.predict", norm_src(rets[0]), "predict does not route the validated X through the fitted tree from its root", line=rets[0].lineno,
+                      site="Kauri.predict")
     else:
-        ctx.violation("C09-f", ku.relpath, "Kauri.predict", "return", "predict does not route through the fitted tree from its root", line=kp.lineno)
+        ctx.unrecognised("C09-f", "Kauri.predict", "does not return tree_.predict(...)")
     ks = ku.func("Kauri.score")
-    ssrc = [norm_src(s) for s in ks.body]
-    if "y_pred = self.predict(X)" in ssrc and "kernel = self._compute_kernel(X, y)" in ssrc and "return gemini_objective(y_pred, kernel)" in ssrc:
-        ctx.ok("C09-f", "Kauri.score = gemini_objective(predict(X), kernel)")
+    rets = [s_ for s_ in ast.walk(ks) if isinstance(s_, ast.Return)]
+    cfgk = CFG(ks)
+    from ..match import resolve_expr
+    site = "Kauri.score"
+    if not rets:
+        ctx.unrecognised("C09-f", site, "no return")
     else:
-        ctx.violation("C09-f", ku.relpath, "Kauri.score", "return", "score is not the objective of the predicted labels", line=ks.lineno)
+        full = resolve_expr(cfgk, rets[0], rets[0].value)
+        if canon_equal(full, "gemini_objective(self.predict(X), self._compute_kernel(X, y))"):
+            ctx.ok("C09-f", "Kauri.score = gemini_objective(predict(X), kernel(X, y))")
+        elif "gemini_objective" in norm_src(full):
+            ctx.violation("C09-f", ku.relpath, "Kauri.score", norm_src(full)[:160], "score is not the kernel-KMeans objective of predict(X) under the kernel of the given data", line=rets[0].lineno, site=site)
+        else:
+            ctx.unrecognised("C09-f", site, f"returns {norm_src(full)[:80]}")
     go = pu.func("gemini_objective")
-    gsrc = [norm_src(s) for s in ast.walk(go) if isinstance(s, ast.stmt)]
-    if "score += kernel_stock(kernel, indices) / len(indices)" in gsrc and any(s.startswith("for value in np.unique(y_pred)") for s in gsrc):
+    accs = [s_ for s_ in ast.walk(go) if isinstance(s_, ast.AugAssign) and isinstance(s_.op, ast.Add)]
+    site = "gemini_objective"
+    if not accs:
+        ctx.unrecognised("C09-f", site, "no accumulation")
+    elif canon_equal(accs[0].value, "kernel_stock(kernel, indices) / len(indices)") and any(isinstance(l_, ast.For) and "np.unique(y_pred)" in norm_src(l_.iter) for l_ in ast.walk(go)):
         ctx.ok("C09-f", "gemini_objective = sum over present labels of stock/size")
     else:
-        ctx.violation("C09-f", pu.relpath, "gemini_objective", "score +=", "the objective is not sum_k sigma(C_k^2)/|C_k|", line=go.lineno)
-    lab = [s for s in fsrc2 if s.startswith("self.labels_ =")]
-    if lab == ["self.labels_ = (Y @ Z).argmax(0)"]:
-        ctx.ok("C09-f", "Kauri.fit: labels_ = (Y @ Z).argmax(0)")
-    else:
-        ctx.violation("C09-f", ku.relpath, "Kauri.fit", lab[0] if lab else "labels_", "labels_ is not the cluster of each sample's leaf", line=fit.lineno)
+        ctx.violation("C09-f", pu.relpath, "gemini_objective", norm_src(accs[0]), "the objective is not sum_k sigma(C_k^2)/|C_k| over the labels present", line=accs[0].lineno, site=site)
+    expect_assign(ctx, "C09-f", ku, "Kauri.fit", fit, "self.labels_", ["(Y @ Z).argmax(0)"], "Kauri.fit: labels_", "labels_ is not the cluster (Y) of each sample's leaf (Z)")
+
+
+def fit_cfg_nodes(f):
+    return {n for n in ast.walk(f) if isinstance(n, ast.stmt)}
 
 
 def _in_body(ifnode, node):
